@@ -13,6 +13,14 @@ Record pipe19 := {
   p_status : N; p_backend : N; p_headers : list header; p_body : str; p_log : bool
 }.
 
+(* one example of the unit-ids analysis (src/api/unit_ids.rs): the rules the router matched with their unit fields, and
+   the unit_ids_applied the crate stored on the example *)
+Record uunit19 := {
+  uu_rules : list urule; uu_skipped : option str; uu_code : option N; uu_lower : list (str * str); uu_out : list str
+}.
+Definition unit_ids_ok (table : list (str * hkind)) (skeleton : str) (p : uunit19) : bool :=
+  list_eqb str_eqb (t_unit_ids (lower_of (uu_lower p)) table (uu_rules p) (uu_skipped p) None (uu_code p) skeleton) (uu_out p).
+
 (* the model of the analysis (RIO.Pipeline.analysis_of_rules) reproduces the reported response *)
 Definition pipe_ok (table : list (str * hkind)) (skeleton : str) (p : pipe19) : bool :=
   let r := analysis_of_rules (lower_of (p_lower p)) table (p_rules p) (p_skipped p) None (p_code p) skeleton in
@@ -27,6 +35,7 @@ Record case19 := {
   k_pipeline_same : bool;   (* response reported by explain = the live pipeline replayed by the harness on a rebuilt router *)
   k_pipes : list pipe19;    (* the reported responses with the matched rules, for the pipeline model *)
   k_upipes : list upipe19;  (* the reported unit traces with the matched rules and their unit fields (RIO.C19UnitsRun) *)
+  k_uunits : list uunit19;  (* the unit ids the unit-ids analysis stores on each example of each rule *)
   k_has_chain : bool;
   k_max : N;                (* max_hops *)
   k_table : list (N * option (N * N) * bool * bool);   (* node, one hop (target, status), target outside the project domains, self loop *)
@@ -71,7 +80,8 @@ Definition chain_ok (c : case19) : bool :=
 
 Definition verdict19 (table : list (str * hkind)) (skeleton : str) (c : case19) : N :=
   (vbit ((negb (k_has_chain c) || (let '(h, e) := model_chain c in hops_eqb h (o_hops c) && N.eqb (err_code e) (o_err c)))
-         && forallb (pipe_ok table skeleton) (k_pipes c) && forallb (unit_trace_ok table skeleton) (k_upipes c)) 1
+         && forallb (pipe_ok table skeleton) (k_pipes c) && forallb (unit_trace_ok table skeleton) (k_upipes c)
+         && forallb (unit_ids_ok table skeleton) (k_uunits c)) 1
    + vbit (k_tests_same c && k_units_same c && k_explain_same c && k_impact_same c && k_pipeline_same c && (negb (k_has_chain c) || chain_ok c)) 4)%N.
 
 Definition spec_verdict19 (c : case19) : N :=
